@@ -262,6 +262,26 @@ namespace gmut {
       return true;
     }
     if (op == 4) {  // truncate at token boundary
+      if (g.below(2)) {
+        // inside a statement, after its k-th token (k small): `@Keyword`, `@Keyword a`, `@Keyword a {`...
+        // (aims at the end-of-file checks of the token readers)
+        auto st = statements(s);
+        if (st.empty()) return false;
+        const auto x = st[g.below(st.size())];
+        const auto sub = s.substr(x.first, x.second - x.first);
+        auto tb = tokenBoundaries(sub);
+        // drop the boundaries located in the leading blanks
+        std::vector<std::size_t> ok;
+        for (const auto b : tb) {
+          bool blank = true;
+          for (std::size_t i = 0; i != b; ++i) blank = blank && std::isspace(static_cast<unsigned char>(sub[i]));
+          if (!blank) ok.push_back(b);
+        }
+        if (ok.empty()) return false;
+        const auto k = g.below(std::min<std::size_t>(ok.size(), 6));
+        s.resize(x.first + ok[k]);
+        return true;
+      }
       auto tb = tokenBoundaries(s);
       if (tb.empty()) return false;
       // favour the tail: truncations near the end keep most of the file
